@@ -48,7 +48,7 @@ import time
 import types as _types
 from collections import OrderedDict
 from http import HTTPStatus
-from typing import get_args, get_origin, get_type_hints
+from typing import Literal, get_args, get_origin, get_type_hints, overload
 
 import pyarrow as pa
 import zstandard
@@ -314,12 +314,22 @@ def _seal_call_token(
     return base64.b64encode(sealed)
 
 
+@overload
+def _open_call_token(
+    token: bytes, token_key: bytes, aad: bytes, token_ttl: int = 0, *, with_created_at: Literal[False] = False
+) -> tuple[bytes, str, bytes, bytes, bytes, str]: ...
+@overload
+def _open_call_token(
+    token: bytes, token_key: bytes, aad: bytes, token_ttl: int = 0, *, with_created_at: Literal[True]
+) -> tuple[bytes, str, bytes, bytes, bytes, str, int]: ...
 def _open_call_token(
     token: bytes,
     token_key: bytes,
     aad: bytes,
     token_ttl: int = 0,
-) -> tuple[bytes, str, bytes, bytes, bytes, str]:
+    *,
+    with_created_at: bool = False,
+) -> tuple[bytes, str, bytes, bytes, bytes, str] | tuple[bytes, str, bytes, bytes, bytes, str, int]:
     """Open and verify a call token.
 
     Args:
@@ -327,10 +337,12 @@ def _open_call_token(
         token_key: 32-byte master AEAD key.
         aad: Associated data — must match the AAD used at seal time.
         token_ttl: Maximum token age in seconds; ``0`` disables expiry.
+        with_created_at: Also return the token's creation time, so a cache
+            entry built from it can be made to expire with the token.
 
     Returns:
         ``(call_state_bytes, call_state_type, schema_bytes, input_schema_bytes,
-        call_id, stream_id)``
+        call_id, stream_id)``, followed by ``created_at`` when requested.
 
     Raises:
         _RpcHttpError: On malformed, tampered, expired, or cross-principal
@@ -369,12 +381,11 @@ def _open_call_token(
     if payload_end != len(plaintext):
         raise _RpcHttpError(RuntimeError("Malformed call token"), status_code=HTTPStatus.BAD_REQUEST)
 
-    if token_ttl > 0:
-        created_at = struct.unpack_from("<Q", plaintext, 0)[0]
-        if int(time.time()) - created_at > token_ttl:
-            raise _RpcHttpError(RuntimeError("Call token expired"), status_code=HTTPStatus.BAD_REQUEST)
+    created_at: int = struct.unpack_from("<Q", plaintext, 0)[0]
+    if token_ttl > 0 and int(time.time()) - created_at > token_ttl:
+        raise _RpcHttpError(RuntimeError("Call token expired"), status_code=HTTPStatus.BAD_REQUEST)
 
-    return (
+    opened = (
         call_state_bytes,
         type_bytes.decode(),
         schema_bytes,
@@ -382,6 +393,7 @@ def _open_call_token(
         call_id,
         stream_id_bytes.decode(),
     )
+    return (*opened, created_at) if with_created_at else opened
 
 
 def _read_segment(data: bytes, pos: int, message: str) -> tuple[bytes, int]:
@@ -405,7 +417,7 @@ class _ResolvedCall:
     :meth:`StreamState.bind_call_state` documents.
     """
 
-    __slots__ = ("call_state", "input_schema", "output_schema", "stream_id")
+    __slots__ = ("call_state", "created_at", "input_schema", "output_schema", "stream_id")
 
     def __init__(
         self,
@@ -413,11 +425,15 @@ class _ResolvedCall:
         output_schema: pa.Schema,
         input_schema: pa.Schema,
         stream_id: str,
+        created_at: int | None = None,
     ) -> None:
         self.call_state = call_state
         self.output_schema = output_schema
         self.input_schema = input_schema
         self.stream_id = stream_id
+        # Creation time of the call token this was parsed from (``None`` when
+        # built at ``/init``, where "now" is the creation time).
+        self.created_at = created_at
 
 
 class _CallStateCache:
@@ -465,12 +481,27 @@ class _CallStateCache:
             return resolved
 
     def put(
-        self, call_id: bytes, auth: AuthContext | None, resolved: _ResolvedCall, now: float, method_name: str = ""
+        self,
+        call_id: bytes,
+        auth: AuthContext | None,
+        resolved: _ResolvedCall,
+        now: float,
+        method_name: str = "",
+        not_after: float | None = None,
     ) -> None:
-        """Record ``resolved`` under ``call_id`` and ``method_name``, evicting the oldest if full."""
+        """Record ``resolved`` under ``call_id`` and ``method_name``, evicting the oldest if full.
+
+        ``not_after`` caps the entry's lifetime: an entry rebuilt from a call
+        token on the miss path must die with that token, otherwise a warm
+        worker keeps serving a stream whose call token a cold worker already
+        rejects as expired.
+        """
         key = (call_id, self._identity(auth), method_name)
+        expires_at = now + self._ttl
+        if not_after is not None and not_after < expires_at:
+            expires_at = not_after
         with self._lock:
-            self._entries[key] = (now + self._ttl, resolved)
+            self._entries[key] = (expires_at, resolved)
             self._entries.move_to_end(key)
             while len(self._entries) > self._max_entries:
                 self._entries.popitem(last=False)
